@@ -31,13 +31,25 @@ pub fn run(args: &[String]) -> i32 {
                 expect.push(json!({"a": i, "k": "l", "els": els}));
             }
         }
-        let spec = NodeSpec { endpoints: vec![(1, vec![ClusterSpec { id: 101, attrs, cmds: vec![] }])] };
+        // events waiting in the node's queue: {"evs": [payload bytes, ...]}; event paths: "events": true (the cluster's events),
+        // "missing" (a concrete path to a cluster that is not there: answered by a status), "both"
+        let evs: Vec<usize> = if b.is_array() { vec![] } else { b["evs"].as_array().map(|a| a.iter().map(|x| x.as_u64().unwrap() as usize).collect()).unwrap_or_default() };
+        let ev_mode = if b.is_array() { "" } else if b["events"] == true { "wild" } else { b["events"].as_str().unwrap_or("") };
+        let ev_paths: Vec<(Option<u16>, Option<u32>, Option<u32>)> = match ev_mode {
+            "wild" => vec![(Some(1), Some(101), None)],
+            "missing" => vec![(Some(1), Some(999), Some(0))],
+            "both" => vec![(Some(1), Some(999), Some(0)), (Some(1), Some(101), None)],
+            _ => vec![],
+        };
+        let spec = NodeSpec { endpoints: vec![(1, vec![ClusterSpec { id: 101, attrs, cmds: vec![] }])], events: evs.iter().map(|n| (1u16, 101u32, 0u32, *n)).collect() };
         // the selection: one wildcard path, or one concrete path per attribute (in the same order)
         let concrete = !b.is_array() && b["concrete"] == true;
         let paths = if concrete { (0..items.len()).map(|i| (Some(1), Some(101), Some(i as u32))).collect() } else { vec![(Some(1), Some(101), None)] };
-        let req = Req { kind: "read".into(), paths, timed: false, events: !b.is_array() && b["events"] == true };
+        let sees_events = ev_mode == "wild" || ev_mode == "both";
+        let n_status = if ev_mode == "missing" || ev_mode == "both" { 1 } else { 0 };
+        let req = Req { kind: "read".into(), paths, timed: false, ev_paths };
         tr.ev(json!({"ev": "Reset", "run": bi}));
-        tr.ev(json!({"ev": "Req", "items": expect}));
+        tr.ev(json!({"ev": "Req", "items": expect, "events": if sees_events { evs.clone() } else { vec![] }, "evstatus": n_status}));
         match crate::util::catch(|| run_request(&spec, &[], true, &req, 300)) {
             Ok(o) => {
                 for it in o.items.iter() {
